@@ -90,6 +90,8 @@ class DecisionInterp:
         self.cur_func = None
         self.cur_depth = 0
         self.inlined = []
+        # local sets of the master loop known to hold tasks of one status
+        self.status_sets = {}
 
     # -- element predicates (status of ONE dependency) -----------------
 
@@ -177,6 +179,22 @@ class DecisionInterp:
                 mem = cname[3:].upper()
                 if mem in LETTER:
                     return self._task_is(state, LETTER[mem])
+            # S.isdisjoint(deps) with S a local set of tasks that were given
+            # the status X: "not disjoint" means some element of the
+            # collection has status X; "disjoint" says nothing (S only holds
+            # the tasks of this pass)
+            if cname == 'isdisjoint' and recv is not None and \
+                    len(expr.args) == 1:
+                pair = [(dotted(recv), txt(expr.args[0])),
+                        (txt(expr.args[0]), dotted(recv))]
+                for sname, coll in pair:
+                    if sname in self.status_sets and coll in (roles.deps,
+                                                              roles.hard):
+                        scope = 'deps' if coll == roles.deps else 'hard'
+                        fal = state.clone()
+                        fal.E.append((scope,
+                                      frozenset(self.status_sets[sname])))
+                        return [state.clone()], self._prune([fal])
             res = self._inline_predicate(expr, state, roles)
             if res is not None:
                 return res
